@@ -612,17 +612,55 @@ class NotPointwise(Exception):
     pass
 
 
-def facet_selection(fn):
+def facet_selection(fn, facts=None):
     """BoundaryFaceComputer::compute_all / compute_masks: the function counts, per facet, the adjacent cells in a counter array
     (cleared, then incremented once per (cell, local facet) incidence), optionally post-processes the counters facet by facet
     using a 0/1 facet mask parameter, and selects facets by a predicate on the counter (push_back of the facet index).
     -> (selected: {(cells, masked): bool}, value: {(cells, masked): int}, info dict); raises NotPointwise for anything else."""
-    def ty(n):
-        return fn.ntype(n) or ""
+    # ---- helpers that receive the counter array are inlined: their top-level statements take the place of the call, their
+    #      parameters are aliases of the caller's arguments (depth <= 3)
+    alias = {}
+
+    def canon(d):
+        seen = 0
+        while d in alias and seen < 8:
+            d, seen = alias[d], seen + 1
+        return d
+    flat = []              # (statement, function it belongs to)
+
+    def flatten(f, depth):
+        for st in (f.body.get("s", []) if f.body.get("k") == "Block" else [f.body]):
+            t = None
+            if featlib.is_call(st) and st.get("k") in ("Call", "MCall") and facts is not None and depth < 3:
+                t = facts.by_decl(st.get("cdecl")) if st.get("cdecl") is not None else None
+                if t is not None and (t.tk == "pattern" or t.body is None or t is f):
+                    t = None
+            bound = False
+            if t is not None:
+                for a, p_ in zip(st.get("a", []), t.params):
+                    a = strip_casts(a)
+                    pt = (t.type(p_["t"]) or "")
+                    if a is not None and a.get("k") == "Ref" and re.search(r"std::vector<int>\s*&$", pt.strip()) and not pt.lstrip().startswith("const "):
+                        bound = True
+                if bound:
+                    for a, p_ in zip(st.get("a", []), t.params):
+                        a = strip_casts(a)
+                        if a is not None and a.get("k") == "Ref":
+                            alias[p_["d"]] = a["d"]
+                    flatten(t, depth + 1)
+                    continue
+            flat.append((st, f))
+    flatten(fn, 0)
+    fns_involved = []
+    for _, f_ in flat:
+        if f_ not in fns_involved:
+            fns_involved.append(f_)
+
     inits = {}
-    for n in fn.nodes():
-        if n.get("k") == "Var":
-            inits[n["d"]] = n
+    for f_ in fns_involved:
+        for n in f_.nodes():
+            if n.get("k") == "Var":
+                inits[n["d"]] = n
     fmask = [p for p in fn.params if re.match(r"^const std::vector<int>\s*&$", (fn.type(p["t"]) or "").strip())]
     if len(fmask) > 1:
         raise NotPointwise("more than one const std::vector<int>& parameter")
@@ -641,11 +679,11 @@ def facet_selection(fn):
             b, i = strip_casts(n["b"]), strip_casts(n["idx"])
         else:
             return False
-        return b is not None and b.get("k") == "Ref" and b.get("d") == arr and (var is None or (i is not None and i.get("k") == "Ref" and i.get("d") == var))
+        return b is not None and b.get("k") == "Ref" and canon(b.get("d")) == arr and (var is None or (i is not None and i.get("k") == "Ref" and i.get("d") == var))
 
     # the counter array: the std::vector<int> that is incremented at an index looked up in an index set
     A = None
-    for n in fn.nodes():
+    for n, f_ in [(x, f_) for st_, f_ in flat for x in walk(st_)]:
         tgt = None
         if n.get("k") == "Un" and n.get("op") == "++":
             tgt = n["e"]
@@ -654,15 +692,15 @@ def facet_selection(fn):
         t = strip_casts(tgt) if tgt is not None else None
         if t is not None and t.get("k") == "OpCall" and t.get("op") == "[]" and len(t.get("a", [])) == 2:
             b, i = strip_casts(t["a"][0]), strip_casts(t["a"][1])
-            if b.get("k") == "Ref" and "std::vector<int>" in ty(b) and i.get("k") in ("OpCall", "MCall") and "IndexSet<" in i.get("callee", ""):
-                if A is not None and A != b["d"]:
+            if b.get("k") == "Ref" and "std::vector<int>" in (f_.ntype(b) or "") and i.get("k") in ("OpCall", "MCall") and "IndexSet<" in i.get("callee", ""):
+                if A is not None and A != canon(b["d"]):
                     raise NotPointwise("two counter arrays")
-                A = b["d"]
+                A = canon(b["d"])
     if A is None:
         raise NotPointwise("no facet counter array (incremented at an index-set entry) found")
 
     def touches(n, d):
-        return any(x.get("k") == "Ref" and x.get("d") == d for x in walk(n))
+        return any(x.get("k") == "Ref" and canon(x.get("d")) == d for x in walk(n))
 
     val = None           # {(c,m): int}
     selected = {k: False for k in domain}
@@ -777,13 +815,65 @@ def facet_selection(fn):
                 rhs = strip_casts(rhs["a"][0])
         if rhs is not None and rhs.get("k") == "MCall" and rhs.get("n") == "size":
             o = strip_casts(rhs.get("obj"))
-            if o is not None and o.get("k") == "Ref" and o.get("d") in (A, F):
+            if o is not None and o.get("k") == "Ref" and canon(o.get("d")) in (A, F):
                 return v
         return None
 
-    for st in (fn.body.get("s", []) if fn.body.get("k") == "Block" else [fn.body]):
+    def counting_problem(loop, w):
+        """the increment w sits in `for(i = 0; i < S.get_num_entities(); ++i) for(j = 0; j < S.get_num_indices(); ++j) ++A[S(i,j)]`:
+        -> None, or a text saying which incidences are not counted; NotPointwise if the nest has another form"""
+        tgt = strip_casts(w.get("e") if w.get("k") == "Un" else w.get("lhs"))
+        idx = strip_casts(tgt["a"][1])
+        if not (idx.get("k") == "OpCall" and idx.get("op") == "()" and len(idx.get("a", [])) == 3):
+            raise NotPointwise("the facet index `%s` of the counting loop is not an index-set entry S(i,j)" % featlib.render(idx))
+        sref = strip_casts(idx["a"][0])
+        vi, vj = strip_casts(idx["a"][1]), strip_casts(idx["a"][2])
+        chain = []
+
+        def find(n, acc):
+            if n is w:
+                chain.extend(acc)
+                return True
+            for c in children(n):
+                if find(c, acc + ([n] if n.get("k") in ("For", "While", "ForRange", "Do") else [])):
+                    return True
+            return False
+        find(loop, [])
+        if len(chain) != 2 or any(x.get("k") != "For" for x in chain):
+            raise NotPointwise("the counting increment (line %s) is not inside exactly two for-loops" % w.get("l"))
+        probs = []
+        for lp, var, what in ((chain[0], vi, "get_num_entities"), (chain[1], vj, "get_num_indices")):
+            init, c, inc = lp.get("init"), strip_casts(lp.get("c")), lp.get("inc")
+            if not (init and init.get("k") == "Decl" and len(init["vars"]) == 1 and var.get("k") == "Ref" and init["vars"][0]["d"] == var.get("d") and c is not None and c.get("k") == "Bin"
+                    and inc is not None and inc.get("k") == "Un" and inc.get("op") == "++" and strip_casts(c["lhs"]).get("d") == var.get("d")):
+                raise NotPointwise("loop at line %s of the counting nest is not `for(v = ..; v < ..; ++v)` over the index used in S(i,j)" % lp.get("l"))
+            lo = _cint(init["vars"][0].get("init"))
+            bound = strip_casts(c["rhs"])
+            for _ in range(4):
+                while bound is not None and bound.get("k") in ("Construct", "TempObj") and len(bound.get("a", [])) == 1:
+                    bound = strip_casts(bound["a"][0])
+                if bound is not None and bound.get("k") == "Ref" and bound.get("dk") == "local" and bound.get("d") in inits and inits[bound["d"]].get("init") is not None:
+                    bound = strip_casts(inits[bound["d"]]["init"])
+                else:
+                    break
+            full = bound is not None and bound.get("k") == "MCall" and bound.get("n") == what and strip_casts(bound.get("obj")) is not None \
+                and strip_casts(bound["obj"]).get("k") == "Ref" and strip_casts(bound["obj"]).get("d") == sref.get("d")
+            if lo is None or not (full or (bound is not None and bound.get("k") == "Bin")):
+                raise NotPointwise("bounds of the counting loop at line %s are not understood" % lp.get("l"))
+            if lo != 0:
+                probs.append("the %s loop (line %s) starts at %d" % ("cell" if what == "get_num_entities" else "local facet", lp.get("l"), lo))
+            if c.get("op") != "<" or not full:
+                if not full and bound.get("k") == "Bin" and bound.get("op") == "-":
+                    probs.append("the %s loop (line %s) stops before %s" % ("cell" if what == "get_num_entities" else "local facet", lp.get("l"), what))
+                elif c.get("op") != "<":
+                    raise NotPointwise("comparison `%s` of the counting loop at line %s" % (c.get("op"), lp.get("l")))
+                else:
+                    raise NotPointwise("bound `%s` of the counting loop at line %s" % (featlib.render(bound), lp.get("l")))
+        return "; ".join(probs) if probs else None
+
+    for st, _f in flat:
         k = st.get("k")
-        if k == "MCall" and strip_casts(st.get("obj")) is not None and strip_casts(st["obj"]).get("d") == A:
+        if k == "MCall" and strip_casts(st.get("obj")) is not None and canon(strip_casts(st["obj"]).get("d")) == A:
             if st.get("n") == "clear":
                 cleared, val = True, None
                 continue
@@ -804,6 +894,7 @@ def facet_selection(fn):
                 w = writes[0]
                 if not ((w.get("k") == "Un" and w.get("op") == "++") or (w.get("k") == "Assign" and w.get("op") == "+=" and _cint(w["rhs"]) == 1)):
                     raise NotPointwise("the incidence loop does not increment by one (line %s)" % w.get("l"))
+                info["count_problem"] = counting_problem(st, w)
                 val = {k_: k_[0] for k_ in domain}
                 info["count_line"] = w.get("l")
                 continue
